@@ -830,7 +830,15 @@ def replay_native(contract, gridpoint, inputs):
     for k, v in gridpoint.items():
         env.setdefault(k, v)
     import copy
-    env["old"] = Env({k: copy.deepcopy(v) if not hasattr(v, "__next__") else v for k, v in env.items()})
+
+    def _cp(v):
+        if isinstance(v, (bytearray, list, dict, set)):
+            try:
+                return copy.deepcopy(v)
+            except Exception:
+                return v
+        return v
+    env["old"] = Env({k: _cp(v) for k, v in env.items()})
     if contract.requires:
         try:
             if not all(bool(r) for r in contract.requires(env)):
